@@ -57,8 +57,11 @@ fn sym_prefix() -> HexStringPrefix {
 
 // ------------------------------------------------------------------ C04: round trip, canonical
 
-macro_rules! c04_rt {
-    ($name:ident, $ty:ty, $ck:literal, $n:literal, $l:literal, $unw:literal) => {
+// (the prefix mode is concrete per instance: a symbolic prefix turns `out = &mut out[2..]` into a
+// pointer with symbolic offset and every later write into a byte-update at a symbolic position:
+// >20 GB)
+macro_rules! c04_fmt {
+    ($name:ident, $ty:ty, $ck:literal, $n:literal, $l:literal, $with:literal, $unw:literal) => {
         #[kani::proof]
         #[kani::unwind($unw)]
         fn $name() {
@@ -66,13 +69,13 @@ macro_rules! c04_rt {
             let h = <$ty>::try_from(&bytes).unwrap();
             assert!(<$ty>::LEN_IN_STR == $l && <$ty>::LEN_IN_STR_EXCEPT_PREFIX == $l - 2);
             assert!(<$ty>::SIZE_IN_BYTES == $n);
-            let prefix = sym_prefix();
-            let off = if prefix == HexStringPrefix::WithVersion { 2 } else { 0 };
+            let prefix = if $with { HexStringPrefix::WithVersion } else { HexStringPrefix::Empty };
+            let off = if $with { 2 } else { 0 };
             let mut buf = [0u8; $l];
             let n = h.store_into_str_bytes(&mut buf, prefix).unwrap();
             assert!(n == $l - 2 + off);
             // canonical text: optional "T1", then uppercase digits of the reference form
-            if off == 2 {
+            if $with {
                 assert!(buf[0] == b'T' && buf[1] == b'1');
             }
             let k: usize = kani::any();
@@ -80,19 +83,28 @@ macro_rules! c04_rt {
             let c = buf[off + k];
             assert!(c == ref_text_char(&bytes, $ck + 2, k));
             assert!((c >= b'0' && c <= b'9') || (c >= b'A' && c <= b'F'));
-            // parse back through every entry point
-            let s = &buf[..n];
-            let h2 = <$ty>::from_str_bytes(s, Some(prefix)).unwrap();
-            let h3 = <$ty>::from_str_bytes(s, None).unwrap();
-            assert!(h2 == h);
-            assert!(h3 == h);
+        }
+    };
+}
+
+// $with: text carries the "T1" prefix; $auto: parse with prefix auto-detection (None)
+macro_rules! c04_rt {
+    ($name:ident, $ty:ty, $n:literal, $l:literal, $with:literal, $auto:literal, $unw:literal) => {
+        #[kani::proof]
+        #[kani::unwind($unw)]
+        fn $name() {
+            let bytes: [u8; $n] = kani::any();
+            let h = <$ty>::try_from(&bytes).unwrap();
+            let prefix = if $with { HexStringPrefix::WithVersion } else { HexStringPrefix::Empty };
+            let mut buf = [0u8; $l];
+            h.store_into_str_bytes(&mut buf, prefix).unwrap();
+            let s: &[u8] = if $with { &buf[..] } else { &buf[..$l - 2] };
+            let h2 = <$ty>::from_str_bytes(s, if $auto { None } else { Some(prefix) }).unwrap();
             let mut out = [0u8; $n];
             h2.store_into_bytes(&mut out).unwrap();
             let j: usize = kani::any();
             kani::assume(j < $n);
             assert!(out[j] == bytes[j]);
-            kani::cover!(off == 2);
-            kani::cover!(off == 0);
         }
     };
 }
@@ -193,27 +205,50 @@ macro_rules! c04_canon {
     };
 }
 
-//@ h=c04_rt_short props=C04,C14 cfgs=K0,K1,K2,K3,K4,K5 tier=q t=600 | funcs: Short::{try_from(&[u8;15]), store_into_str_bytes, from_str_bytes}, encode_rev_array/encode_rev_1/encode_array, decode_rev_array/decode_rev_1/decode_array (every table variant, one per configuration) | bound: all 2^120 values x 2 prefixes; unwind covers the 32-character text
-c04_rt!(c04_rt_short, Short, 1, 15, 32, 36);
-//@ h=c04_rt_normal props=C04 cfgs=K1,K3 tier=q t=900 | funcs: Normal::{try_from, store_into_str_bytes, from_str_bytes} | bound: all 2^280 values x 2 prefixes
-c04_rt!(c04_rt_normal, Normal, 1, 35, 72, 76);
-//@ h=c04_rt_normall props=C04 cfgs=K1 tier=q t=900 | funcs: NormalWithLongChecksum::{try_from, store_into_str_bytes, from_str_bytes} | bound: all 2^296 values x 2 prefixes
-c04_rt!(c04_rt_normall, NormalWithLongChecksum, 3, 37, 76, 80);
-//@ h=c04_rt_long props=C04 cfgs=K1 tier=q t=1500 | funcs: Long::{try_from, store_into_str_bytes, from_str_bytes} | bound: all 2^536 values x 2 prefixes
-c04_rt!(c04_rt_long, Long, 1, 67, 136, 140);
-//@ h=c04_rt_longl props=C04 cfgs=K1 tier=t t=1800 | funcs: LongWithLongChecksum::{try_from, store_into_str_bytes, from_str_bytes} | bound: all 2^552 values x 2 prefixes
-c04_rt!(c04_rt_longl, LongWithLongChecksum, 3, 69, 140, 144);
-//@ h=c04_rt_normal_k2 props=C04,C07 cfgs=K0,K2,K4,K5 tier=t t=900 | funcs: Normal text round trip in the remaining table configurations | bound: all values x 2 prefixes
-c04_rt!(c04_rt_normal_k2, Normal, 1, 35, 72, 76);
+//@ h=c04_fmt_short_p props=C04,C06,C14 cfgs=K0,K2,K3 tier=q t=600 | funcs: Short::{try_from(&[u8;15]), store_into_str_bytes(WithVersion)}, encode_rev_array/encode_rev_1/encode_array (full / half / min encode tables, one per configuration) | bound: all 2^120 values: exact length, "T1", every character == uppercase digit of the reference form (header nibble-swapped, body plain)
+c04_fmt!(c04_fmt_short_p, Short, 1, 15, 32, true, 36);
+//@ h=c04_fmt_short_e props=C04,C06,C14 cfgs=K1,K3 tier=q t=600 | funcs: Short::store_into_str_bytes(Empty) | bound: all values, no prefix
+c04_fmt!(c04_fmt_short_e, Short, 1, 15, 32, false, 36);
+//@ h=c04_fmt_normal_p props=C04,C06 cfgs=K1 tier=q t=900 | funcs: Normal::store_into_str_bytes(WithVersion) | bound: all 2^280 values
+c04_fmt!(c04_fmt_normal_p, Normal, 1, 35, 72, true, 76);
+//@ h=c04_fmt_normall_e props=C04,C06 cfgs=K1 tier=q t=900 | funcs: NormalWithLongChecksum::store_into_str_bytes(Empty) | bound: all values
+c04_fmt!(c04_fmt_normall_e, NormalWithLongChecksum, 3, 37, 76, false, 80);
+//@ h=c04_fmt_long_p props=C04,C06 cfgs=K1,K2 tier=q t=1200 | funcs: Long::store_into_str_bytes(WithVersion) | bound: all values
+c04_fmt!(c04_fmt_long_p, Long, 1, 67, 136, true, 140);
+//@ h=c04_fmt_longl_p props=C04,C06 cfgs=K1,K3 tier=q t=1200 | funcs: LongWithLongChecksum::store_into_str_bytes(WithVersion) | bound: all values
+c04_fmt!(c04_fmt_longl_p, LongWithLongChecksum, 3, 69, 140, true, 144);
+//@ h=c04_fmt_longl_e props=C04,C06 cfgs=K1 tier=t t=1200 | funcs: LongWithLongChecksum::store_into_str_bytes(Empty) | bound: all values
+c04_fmt!(c04_fmt_longl_e, LongWithLongChecksum, 3, 69, 140, false, 144);
+
+//@ h=c04_rt_short_pa props=C04 cfgs=K0,K1,K3,K4,K5 tier=q t=900 | funcs: Short::{store_into_str_bytes(WithVersion), from_str_bytes(None), store_into_bytes} through every decode-table variant (one per configuration) | bound: all 2^120 values: parse(format(h)) == h
+c04_rt!(c04_rt_short_pa, Short, 15, 32, true, true, 36);
+//@ h=c04_rt_short_ee props=C04 cfgs=K1 tier=q t=900 | funcs: Short::{store_into_str_bytes(Empty), from_str_bytes(Some(Empty))} | bound: all values
+c04_rt!(c04_rt_short_ee, Short, 15, 32, false, false, 36);
+//@ h=c04_rt_short_ea props=C04 cfgs=K1 tier=t t=900 | funcs: Short::{store_into_str_bytes(Empty), from_str_bytes(None)} | bound: all values
+c04_rt!(c04_rt_short_ea, Short, 15, 32, false, true, 36);
+//@ h=c04_rt_short_pp props=C04 cfgs=K1 tier=t t=900 | funcs: Short::{store_into_str_bytes(WithVersion), from_str_bytes(Some(WithVersion))} | bound: all values
+c04_rt!(c04_rt_short_pp, Short, 15, 32, true, false, 36);
+//@ h=c04_rt_normal_pa props=C04 cfgs=K1 tier=q t=1200 | funcs: Normal text round trip (prefix, auto-detect) | bound: all 2^280 values
+c04_rt!(c04_rt_normal_pa, Normal, 35, 72, true, true, 76);
+//@ h=c04_rt_normal_ee props=C04 cfgs=K1,K3 tier=t t=1200 | funcs: Normal text round trip (no prefix) | bound: all values
+c04_rt!(c04_rt_normal_ee, Normal, 35, 72, false, false, 76);
+//@ h=c04_rt_normall_pa props=C04 cfgs=K1 tier=q t=1200 | funcs: NormalWithLongChecksum text round trip | bound: all values
+c04_rt!(c04_rt_normall_pa, NormalWithLongChecksum, 37, 76, true, true, 80);
+//@ h=c04_rt_long_ea props=C04 cfgs=K1 tier=q t=1800 | funcs: Long text round trip (no prefix, auto-detect) | bound: all values
+c04_rt!(c04_rt_long_ea, Long, 67, 136, false, true, 140);
+//@ h=c04_rt_longl_pa props=C04 cfgs=K1 tier=t t=2400 | funcs: LongWithLongChecksum text round trip | bound: all values
+c04_rt!(c04_rt_longl_pa, LongWithLongChecksum, 69, 140, true, true, 144);
 
 //@ h=c04_str_short props=C04 cfgs=K1 tier=q t=600 | funcs: Short::{from_str, from_str_with, str::parse} | bound: all values x prefix present/absent; &str built from the (proven ASCII) text
 c04_str!(c04_str_short, Short, 1, 15, 32, 36);
 //@ h=c04_str_normal props=C04 cfgs=K1 tier=t t=900 | funcs: Normal::{from_str, from_str_with, str::parse} | bound: all values x prefix present/absent
 c04_str!(c04_str_normal, Normal, 1, 35, 72, 76);
 
-//@ h=c04_display_short props=C04 cfgs=K1,K10 tier=q t=900 | funcs: <Short as Display>::fmt through core::fmt::write into a fixed sink (K10: from_utf8_unchecked arm) | bound: all values; to_string (allocation) covered only through this equality
+//@ h=c04_display_short props=C04,C17 cfgs=K10 tier=q t=900 | funcs: <Short as Display>::fmt through core::fmt::write into a fixed sink (K10: from_utf8_unchecked arm) | bound: all values; to_string (allocation) covered only through this equality
 c04_display!(c04_display_short, Short, 15, 32, 36);
-//@ h=c04_display_normal props=C04 cfgs=K1 tier=t t=1200 | funcs: <Normal as Display>::fmt | bound: all values
+//@ h=c04_display_short_safe props=C04 cfgs=K1 tier=t t=3600 | funcs: <Short as Display>::fmt with the checked from_utf8 arm | bound: all values
+c04_display!(c04_display_short_safe, Short, 15, 32, 36);
+//@ h=c04_display_normal props=C04 cfgs=K10 tier=t t=1200 | funcs: <Normal as Display>::fmt (from_utf8_unchecked arm) | bound: all values
 c04_display!(c04_display_normal, Normal, 35, 72, 76);
 
 //@ h=c04_canon_short props=C04 cfgs=K1,K3,K5 tier=q t=900 | funcs: Short::from_str_bytes(auto) then store_into_str_bytes | bound: all 2^256 candidate strings of both right lengths: accepted => re-format == "T1"+upper(digits)
